@@ -1168,7 +1168,10 @@ Library read_gds(const char* filename, double unit, double tolerance, const Set<
                     reference->origin = origin;
                     if (reference->repetition.type != RepetitionType::None) {
                         Repetition* repetition = &reference->repetition;
-                        if (reference->rotation == 0 && !reference->x_reflection) {
+                        // A lattice along the axes is a rectangular repetition; any off-axis component of
+                        // the two corner points has to be kept
+                        if (reference->rotation == 0 && !reference->x_reflection &&
+                            data32[3] == data32[1] && data32[4] == data32[0]) {
                             repetition->spacing.x =
                                 (factor * data32[2] - origin.x) / repetition->columns;
                             repetition->spacing.y =
